@@ -1136,3 +1136,152 @@ def rule_swallowed_regions(ctx: Ctx, clause: str, rule="EV.swallowed", min_regio
     if n_regions < min_regions:
         ctx.soft_fail(f"{rule}: expected at least {min_regions} swallowed region(s) in the step path, found {n_regions}")
     return n_regions, n_funcs
+
+
+# ------------------------------------------------------------------------------------------ activity writes
+def rule_activity_writes(ctx: Ctx, clause: str, rule="TS.activity-write", min_sites: int = 5):
+    """A vehicle's activity object changes CLASS only inside `apply_new_vehicle_state`, which only an activity's own
+    `enter` may call, with the entering activity itself. Every other `modify_vehicle_state(X)` stores an update of the
+    activity the vehicle already has: `replace(S, ...)`, `S._replace(...)` or `S.<method>(...)` with S the current activity
+    (`self` inside an activity method, `<vehicle>.vehicle_state`, or a parameter typed as an activity). An activity written
+    any other way skips the guards of `enter` and the releases of `exit`: the books (plugs, stalls, queue slots, request
+    records), the location and membership guarantees all rest on this."""
+    repo = ctx.repo
+    idx = index(repo)
+    t = _reach_tables(repo)
+    state_names = t["state_names"]
+    sites = [s for s in idx.calls("modify_vehicle_state", refs=True) if in_pkg(s) and not s.file.startswith("nrel/hive/resources")]
+    n = 0
+    for s in sites:
+        fn = s.func
+        if fn is None or s.kind == "ref":
+            ctx.violation(clause, rule, "modify_vehicle_state referenced outside a call in a function", file=s.file, line=s.line, function=s.qual,
+                          why="an activity write that cannot be accounted for", construct=f"activity-write-ref:{s.qual}")
+            continue
+        n += 1
+        inst = f"{fn.qualname}: modify_vehicle_state(...)"
+        if fn.qualname.endswith("apply_new_vehicle_state"):
+            ctx.ok(clause, rule, inst, fn, s.node, "the install point (its callers are checked)")
+            continue
+        # expanded argument on the paths that execute the call
+        verdicts = []
+        for p in flow.paths(fn.node):
+            for ev in p.events:
+                if ev.raw is s.node and ev.call.args:
+                    verdicts.append(_same_activity_update(fn, ev.call.args[0], state_names))
+        if not verdicts:
+            kw = [k.value for k in s.node.keywords if k.arg == "vehicle_state"]
+            arg = s.node.args[0] if s.node.args else (kw[0] if kw else None)
+            verdicts.append(_same_activity_update(fn, arg, state_names) if arg is not None else (False, "no argument"))
+        bad = [w for ok, w in verdicts if not ok]
+        if bad:
+            ctx.violation(clause, rule, inst, fn, s.node,
+                          why=f"stores {bad[0]}: not an update of the activity the vehicle already has — an activity installed outside enter() skips enter's guards and the previous activity's exit",
+                          construct=f"{fn.qualname}:activity-write:{bad[0][:100]}")
+        else:
+            ctx.ok(clause, rule, inst, fn, s.node, f"stores {verdicts[0][1][:100]}")
+    if n < min_sites:
+        ctx.soft_fail(f"{rule}: expected at least {min_sites} modify_vehicle_state sites, found {n}")
+
+    def ok_apply(s: Site):
+        f = s.func
+        top = f
+        while top is not None and top.outer is not None:
+            top = top.outer
+        if top is None or top.cls is None or top.name != "enter" or top.cls.name not in state_names:
+            return None
+        call = s.node
+        exp = []
+        for p in flow.paths(f.node):
+            for ev in p.events:
+                if ev.raw is call and len(ev.call.args) >= 3:
+                    exp.append(flow.core(ev.call.args[2]))
+        if not exp and isinstance(call, ast.Call) and len(call.args) >= 3:
+            exp = [call.args[2]]
+        if not exp:
+            return None
+        for a in exp:
+            is_self = isinstance(a, ast.Name) and a.id == "self"
+            upd = isinstance(a, ast.Call) and ((dotted(a.func) in ("replace", "dataclasses.replace") and a.args and flow.dump(flow.core(a.args[0])) == "self")
+                                               or (isinstance(a.func, ast.Attribute) and a.func.attr == "_replace" and flow.dump(a.func.value) == "self"))
+            if not (is_self or upd):
+                return None
+        return f"{top.cls.name}.enter installs itself"
+
+    rule_callers(ctx, clause, "apply_new_vehicle_state", ok_apply, "apply_new_vehicle_state is called only by an activity's own enter(), with that activity", 10)
+
+    def ok_kw(s: Site):
+        f = s.func
+        if f is None:
+            return None
+        if f.relpath.endswith("model/vehicle/vehicle.py") and f.qualname == "Vehicle.modify_vehicle_state":
+            return "the setter itself"
+        v = None
+        for k in getattr(s.node, "keywords", []):
+            if k.arg == "vehicle_state":
+                v = k.value
+        d = flow.dump(v) if v is not None else ""
+        # a newly built vehicle starts in an activity that holds nothing
+        if d.startswith(("Idle.build(", "Idle(")):
+            return "a newly built vehicle starts Idle (holds nothing)"
+        if isinstance(v, ast.Name):
+            for nn in ast.walk(f.node if f.outer is None else f.outer.node):
+                if isinstance(nn, ast.Assign) and any(isinstance(tg, ast.Name) and tg.id == v.id for tg in nn.targets) and flow.dump(nn.value).startswith(("Idle.build(", "Idle(")):
+                    return "a newly built vehicle starts Idle (holds nothing)"
+        return None
+
+    rule_field_writers(ctx, clause, "vehicle_state", ok_kw, "Vehicle.vehicle_state is written only by modify_vehicle_state and by constructors that start the vehicle Idle", 2,
+                       owner_hint=lambda s: isinstance(s.node, ast.Call) and (dotted(s.node.func) or "").split(".")[-1] in ("Vehicle", "replace", "_replace"))
+    return n
+
+
+def _same_activity_update(fn: Func, arg: ast.AST, state_names: Set[str]):
+    """(ok, description): is `arg` an update of the vehicle's current activity?"""
+    a = flow.core(arg) if arg is not None else None
+    d = flow.dump(a)[:120] if a is not None else "?"
+
+    def current_activity(e: ast.AST) -> bool:
+        e = flow.core(e)
+        if isinstance(e, ast.Name):
+            if e.id == "self":
+                top = fn
+                while top.outer is not None:
+                    top = top.outer
+                return top.cls is not None and top.cls.name in state_names
+            # a parameter typed as an activity (or named like one)
+            for x in fn.node.args.posonlyargs + fn.node.args.args + fn.node.args.kwonlyargs:
+                if x.arg == e.id:
+                    ann = flow.dump(x.annotation) if x.annotation is not None else ""
+                    return any(k in ann for k in state_names) or "VehicleState" in ann or x.arg in ("vehicle_state", "state")
+            return False
+        if isinstance(e, ast.Attribute) and e.attr == "vehicle_state":
+            return True
+        if isinstance(e, ast.Call):
+            # an update of an update: replace(replace(S, ...), ...), S.update_route(...).m(...)
+            return same(e)
+        return False
+
+    def same(e: ast.AST) -> bool:
+        e = flow.core(e)
+        if not isinstance(e, ast.Call):
+            return False
+        nm = dotted(e.func) or ""
+        if nm.split(".")[0] in state_names:
+            return False  # K.build(...) / K(...): a NEW activity
+        if nm in ("replace", "dataclasses.replace") and e.args:
+            return current_activity(e.args[0])
+        if isinstance(e.func, ast.Attribute):
+            if e.func.attr in ("build",):
+                return False
+            return current_activity(e.func.value)
+        return False
+
+    if a is None:
+        return False, "nothing"
+    if same(a):
+        return True, f"an update of the current activity: {d}"
+    if isinstance(a, ast.Attribute) and a.attr == "vehicle_state":
+        # the activity a vehicle record already carries (in this state or one derived from it): it got there through enter();
+        # whether the rest of that state is kept is the lineage rule's business
+        return True, f"an activity read from a vehicle record: {d}"
+    return False, d
